@@ -307,7 +307,7 @@ func (c *XAConn) termination(xaBranchXid string) error {
 func (c *XAConn) cleanXABranchContext() {
 	h, _ := time.ParseDuration("-1000h")
 	c.branchRegisterTime = time.Now().Add(h)
-	c.prepareTime = time.Now().Add(h)
+	c.prepareTime = time.Time{}
 	c.xaActive = false
 	c.autoCommit = true
 	if !c.isConnKept {
@@ -366,6 +366,7 @@ func (c *XAConn) Commit(ctx context.Context) error {
 	if err := c.xaResource.XAPrepare(ctx, c.xaBranchXid.String()); err != nil {
 		return c.commitErrorHandle(ctx, err)
 	}
+	c.prepareTime = time.Now()
 	// the local work of the branch is over: the connection is free for the next statement
 	c.xaActive = false
 	c.autoCommit = true
